@@ -201,7 +201,18 @@ var c08Patterns = []string{"||example.org^", "example", "|http://example.org/", 
 
 func c08Mutate(t *rapid.T, m NetModel) NetModel {
 	y := m
-	switch rapid.IntRange(0, 8).Draw(t, "mutation") {
+	switch rapid.IntRange(0, 9).Draw(t, "mutation") {
+	case 9:
+		// the same rule with another letter case in the pattern: another rule, although it matches the same requests
+		r := strings.NewReplacer("example", "Example", "google", "Google", "a.com", "A.com", "ads", "Ads")
+		if p := r.Replace(m.Pat); p != m.Pat {
+			y.Pat = p
+		} else {
+			y.Extra = append(append([]string{}, m.Extra...), "important")
+			if inList("important", m.Extra) {
+				y.MC = !m.MC
+			}
+		}
 	case 0:
 		y.Deny = append(append([]string{}, m.Deny...), pick(t, "deny+", []string{"zzz.com", "yyy.net"}))
 	case 1:
